@@ -38,6 +38,10 @@ class Check(PropertyCheck):
     QUICK_N = 250
 
     def generate(self, rng, n, tier):
+        if tier == "thorough":
+            # exhaustive small scope first (every instance <= 2 jobs x 2 operations, durations 0..2, every interleaving)
+            self.extra_coverage = {"exhaustive_small_scope": True}
+            yield from slices.exhaustive_small("queries")
         for _ in range(n):
             yield self.scenario(rng, tier)
 
